@@ -226,7 +226,7 @@ class Machine:
         if k == 'c' and off == 0:
             return int(init['v'])
         if k == 'f' and off == 0:
-            return init['v'] if init['v'] is not None else OPAQUE
+            return float(init['v']) if init['v'] is not None else OPAQUE
         if k == 'n' and off == 0:
             return 0
         if k == 'z':
@@ -257,6 +257,31 @@ class Machine:
                 return FnPtr(init['v'])
             return Ptr(self.global_obj(None, init['v']), 0)
         return OPAQUE
+
+    def _init_elems(self, init, base):
+        """flatten a constant initialiser into (offset, size, value) scalars"""
+        k = init.get('k')
+        if k == 'c':
+            return [(base, init['bits'] // 8, int(init['v']))]
+        if k == 'f':
+            return [(base, init['bits'] // 8, float(init['v']) if init['v'] is not None else OPAQUE)]
+        if k == 'n':
+            return [(base, 8, 0)]
+        if k == 'cv':
+            t = init['ty']
+            out = []
+            if t['k'] in ('array', 'vec') and init['elems']:
+                esz = t['bytes'] // len(init['elems'])
+                for j, e in enumerate(init['elems']):
+                    out += self._init_elems(e, base + j * esz)
+            elif t['k'] == 'struct':
+                name = t['s'].lstrip('%').split(' = ')[0]
+                sd = self.lib.structs.get(name)
+                if sd:
+                    for fd, e in zip(sd['fields'], init['elems']):
+                        out += self._init_elems(e, base + fd['off'])
+            return out
+        return []
 
     def store(self, ptr, val, ty, loc, align=0):
         size = ty.get('bytes', 8)
@@ -351,6 +376,12 @@ class Machine:
                     for o2, (sz2, v2) in list(src.obj.fields.items()):
                         if src.off <= o2 and o2 + sz2 <= src.off + n:
                             do.fields[dst.off + o2 - src.off] = (sz2, v2)
+                    # constant initialiser of a global (e.g. a local array initialised from a literal)
+                    init = getattr(src.obj, 'init', None)
+                    if init is not None and not src.obj.fields and n <= 4096:
+                        for (o2, sz2, v2) in self._init_elems(init, 0):
+                            if src.off <= o2 and o2 + sz2 <= src.off + n:
+                                do.fields[dst.off + o2 - src.off] = (sz2, v2)
                 else:
                     do.smashed = True
         else:
@@ -798,7 +829,7 @@ class Machine:
         if k == 'c':
             return int(r['v'])
         if k == 'f':
-            return r['v'] if r['v'] is not None else OPAQUE
+            return float(r['v']) if r['v'] is not None else OPAQUE
         if k == 'n':
             return 0
         if k == 'u':
